@@ -43,7 +43,10 @@ var parserTargets = []string{"mapvalue", "mapvalue", "stringfunc", "tmplfunc", "
 
 var indexExprs = []string{"next", "rand", "last", "-1", "0", "1", "2", "9999", "-9999", "", " 1 ", "x", "1.5", "99999999999", "9223372036854775807", "-9223372036854775808", "NEXT", "Last", "nex", "0x1", "+1", "１"}
 
-var scalarXpaths = []string{"count(//div)", "1+1", "string(//a)", "boolean(//x)", "sum(//li)", "concat('a','b')", "'lit'", "1", "true()", "string-length('abc')", "count(//li) > 1", "not(//a)", "number('x')"}
+var scalarXpaths = []string{"count(//div)", "1+1", "string(//a)", "boolean(//x)", "sum(//li)", "concat('a','b')", "'lit'", "1", "true()", "string-length('abc')", "count(//li) > 1", "not(//a)"}
+
+// expressions that compile but whose evaluation is a type error in the xpath library
+var typeErrorXpaths = []string{"number('x')", "ceiling('x')", "1 - //a/@href", "-1 //a/@href", "//li + 1", "floor(//li)", "round('a')", "sum('a')", "//a * //li", "1 div //li", "//li mod 2"}
 var nodesetXpaths = []string{"//div", "//a/@href", "//li", "//*", "/html/body", "//li[1]", "//li[last()]", "//li[position()=99999999999]", "//nosuch", "//a/text()", "//div | //a", "(//li)[2]", "//li[0]", "//li[-1]", ".", ".."}
 var brokenXpaths = []string{"", "//*[", "//", "///", "[", "]", "@", "//a[", "count(", "count()", "nosuch()", "//a[@href=", "1 div 0", "//li[1 div 0]", "\x00", "//a:b", "$x", "//li[position() = ]"}
 
@@ -123,8 +126,10 @@ func genParserCase(r *vf.Run) func(t *rapid.T) ParserCase {
 			if r != nil && r.IsKnown(fXpathNonNodeSet) {
 				// scalar expressions are the shape of the listed finding (mutated ones that turn out scalar are excused by symptom)
 				genFromPools(t, &c, nodesetXpaths, brokenXpaths)
-			} else {
+			} else if r != nil && r.IsKnown(fXpathEval) {
 				genFromPools(t, &c, nodesetXpaths, scalarXpaths, brokenXpaths)
+			} else {
+				genFromPools(t, &c, nodesetXpaths, scalarXpaths, brokenXpaths, typeErrorXpaths)
 			}
 			c.Body = []byte(rapid.SampledFrom(bodies).Draw(t, "body"))
 		case "jsonpath":
@@ -207,7 +212,7 @@ func checkParser(c ParserCase, o *vf.Obs) error {
 	if len(c.Body) > 0 && len(c.Body) < 400 {
 		note("body", fmt.Sprintf("%q", c.Body))
 	}
-	return judge(note, len(c.In)+len(c.Body), func() error {
+	return judge(note, len(c.In)+len(c.Body), allocCeiling, func() error {
 		return bounded(c.Target, func(_ context.Context) error { return parserBody(c, o) })
 	})
 }
@@ -275,12 +280,17 @@ func parserBody(c ParserCase, o *vf.Obs) error {
 			return nil
 		}
 		class("accepted")
-		if strings.ContainsAny(name, "()") {
-			return violationf("ParseStringFunc(%q) accepted the input with name %q", in, name)
-		}
-		for _, a := range args {
-			if strings.ContainsAny(a, "()") && strings.Count(in, "(") == 1 && strings.Count(in, ")") == 1 {
-				return violationf("ParseStringFunc(%q) returned argument %q", in, a)
+		// reference for the well-formed shape  name(a, b, ...)  (one bracket pair, closing bracket last)
+		if strings.Count(in, "(") == 1 && strings.Count(in, ")") == 1 && strings.HasSuffix(strings.TrimSpace(in), ")") && strings.Index(in, "(") < strings.Index(in, ")") {
+			nontrivial()
+			before, rest, _ := strings.Cut(in, "(")
+			inner := strings.TrimSuffix(strings.TrimSpace(rest), ")")
+			want := strings.Split(strings.TrimSpace(inner), ",")
+			for i := range want {
+				want[i] = strings.TrimSpace(want[i])
+			}
+			if name != strings.TrimSpace(before) || fmt.Sprintf("%q", args) != fmt.Sprintf("%q", want) {
+				return violationf("ParseStringFunc(%q) = (%q, %q), expected (%q, %q)", in, name, args, strings.TrimSpace(before), want)
 			}
 		}
 	case "tmplfunc":
